@@ -308,9 +308,45 @@ pub fn run(ctx: &Ctx) -> i32 {
             }
         }
     });
+    // (F) every schedule (loom) of the worker tasks of all three multi-threaded solvers on the
+    // collision games: no panic, no error, no deadlock under any interleaving
+    if crate::multi::loom_available() {
+        use crate::multi::{judge_loom, loom_case, run_loom, sequential, Config, LoomBounds, LoomTotals};
+        let lb = if ctx.thorough() { LoomBounds { pb3: Some(3), pb4: Some(2), max_permutations: 200_000, max_seconds: 200 } } else { LoomBounds { pb3: Some(2), pb4: Some(1), max_permutations: 20_000, max_seconds: 30 } };
+        let mut cases = Vec::new();
+        for (_, tree) in crate::checks::c06::collision_games() {
+            let game = match build(&tree) {
+                Ok(g) => g,
+                Err(_) => continue,
+            };
+            let al = match crate::runner::align(&tree, &game) {
+                Ok(al) => al,
+                Err(_) => continue,
+            };
+            for method in METHODS {
+                for spec in [ParamSpec::Preset(0), ParamSpec::Default] {
+                    let iters = if method == RefMethod::External { 1 } else { 2 };
+                    let cfg = Config { method, spec, iters, max_reg: 0.0, script: BTreeMap::new(), fallback: crate::explore::Fallback::Hash(ctx.seed) };
+                    if let Ok(seq) = sequential(&tree, &game, &al, &cfg) {
+                        for target in [3usize, 4, 5, 6] {
+                            cases.push(loom_case(0, &tree, &cfg, &seq, 2, &[target], true, &lb));
+                        }
+                    }
+                }
+            }
+        }
+        let results = run_loom(&cases, 16);
+        let mut totals = LoomTotals::default();
+        for (case, res) in cases.iter().zip(results.iter()) {
+            judge_loom(ctx, case, res, &mut totals);
+        }
+        ctx.set("loom_schedules_(no_panic_no_deadlock)", json!({"cases": totals.cases, "with_>=2_concurrent_tasks": totals.cases_with_concurrency, "schedules": totals.schedules, "capped": totals.capped, "preemption_bounded": totals.bounded}));
+    } else {
+        ctx.set("loom_schedules_(no_panic_no_deadlock)", json!("NOT RUN: loom worker not built"));
+    }
     ctx.assume("actually spawning usize::MAX/3 threads (resource exhaustion, ThreadSpawnError) is environment behaviour the explorer does not own");
     ctx.assume("exponents beyond |1e3| and payoffs outside the alphabets are not covered");
-    ctx.assume("multi-threaded runs (C) use the real rayon pool: they are exhaustive over inputs, not over schedules (schedules: C06/C07 under loom)");
+    ctx.assume("multi-threaded runs (C) use the real rayon pool: they are exhaustive over inputs, not over schedules; (F) explores every schedule (loom; preemption-bounded above two tasks) of the collision games for all three methods, and C06 / C07 do so for many more games");
     ctx.finish(
         "(A) every valid game of the small bounds x 3 methods x (1792 parameter tuples over a,b in {-inf,-1e3,-1.5,0,.5,1,1e3,inf}, g in {0,.5,2,1e3}, w in {-inf,-1e3,-1,0,1,1e3,inf} + 5 presets + None) x budgets {0,1,2,3,7}; (B) every valid skeleton of the larger bounds + families x presets/None x budgets x thresholds {-1,0,.5,inf,NaN}; (C) thread counts {0,2,3,16,64}; (D) overflow boundary; (E) every draw history for 5 extreme tuples; non-trivial = the game has a decision and at least one iteration ran",
         true,
